@@ -7,3 +7,6 @@ import SPModel.Text
 import SPModel.Design
 import SPModel.Spec
 import SPModel.Api
+import SPModel.Layout
+import SPModel.Sampler
+import SPModel.Compile
